@@ -1274,6 +1274,9 @@ class World:
                     simpool.forget_pools()
                 self.cache = None
                 self._new_process_state()
+                # ... with its own process id and its own string-hash salt
+                self.incarnation += 1
+                interpose._STATE["incarnation"] = self.incarnation
             size = op.get("size")
             if size is None:
                 size = k["max_bytes"]
